@@ -187,6 +187,10 @@ type Clock struct {
 	// AfterExpiry counts seam calls that started a wait after expiry.
 	SleepsAfterExpiry int
 	SendsAfterExpiry  int
+	// UnboundSleepsCrossing counts back-off sleeps during which the deadline
+	// fell although the sleep's context is not derived from the caller's: the
+	// real sleep would run to its end, whatever the deadline.
+	UnboundSleepsCrossing int
 	Sleeps            []time.Duration
 }
 
@@ -467,7 +471,9 @@ func (t *Transport) Sleep(ctx context.Context, d time.Duration) bool {
 	if t.SleepQuantum > 0 {
 		d = t.SleepQuantum
 	}
-	t.Clock.Charge(d)
+	if t.Clock.Charge(d) && ctx.Value(RootKey) == nil {
+		t.Clock.UnboundSleepsCrossing++
+	}
 	return true
 }
 
